@@ -273,8 +273,10 @@ func (e *env) realPlan(seq dag.Seq) (planJ, []string, error) {
 		ft := zfmt.DAGExpr(scan.Filter)
 		for _, tok := range []string{"WG", "WK"} {
 			for t, k := range e.learn {
-				if k == tok && strings.Contains(ft, strings.TrimPrefix(t, "filter ")) {
-					pl.Filter = append(pl.Filter, tok)
+				if k == tok && strings.HasPrefix(t, "filter ") {
+					for n := strings.Count(ft, strings.TrimPrefix(t, "filter ")); n > 0; n-- {
+						pl.Filter = append(pl.Filter, tok)
+					}
 				}
 			}
 		}
